@@ -20,7 +20,7 @@ A_FILE = [
     "crypto/rand.Read fills with fresh symbolic bytes (the sync marker is 16 arbitrary bytes)",
 ]
 A_TIME = [
-    "time.Time is modelled in its real layout for values without a monotonic reading (wall = nanosecond, ext = seconds since year 1, loc = nil for UTC or a fixed-offset location); time.Date is exact up to one uninterpreted function days(year, month) (computed natively for concrete arguments); time.Unix normalises nanoseconds through fresh quotient/remainder variables; Unix/UnixNano/UnixMicro/UnixMilli/Nanosecond/IsZero/UTC/Equal/Zone/FixedZone follow their documented contracts",
+    "time.Time is modelled in its real layout for values without a monotonic reading (wall = nanosecond, ext = seconds since year 1, loc = nil for UTC or a fixed-offset location); time.Date (with month normalisation) and the calendar accessors Date/Year/Month/Day/YearDay/Weekday/Clock/Hour/Minute/Second/AddDate are exact proleptic-Gregorian arithmetic as 32-bit bit-vector terms for years within +-1,000,000 (engine/timecal.go, validated against the real package on a table of boundary dates by harness C19_calendar_model; outside that range the path is inconclusive, never approximated); time.Unix normalises nanoseconds through fresh quotient/remainder variables; Unix/UnixNano/UnixMicro/UnixMilli/Nanosecond/IsZero/UTC/In/Local/Equal/Before/After/Compare/Add/Sub/Zone/Location/FixedZone/time.UnixMilli/time.UnixMicro follow their documented contracts; Local is not given an offset; Time.Format returns the text the harness bound; any other time API is an engine failure (inconclusive)",
 ]
 
 CAT = ("type catalogue: 106 struct types (every leaf kind bool/int/int16/int32/int64/float32/float64/string/[]byte x {field, omitempty field, pointer, "
@@ -177,8 +177,8 @@ P["C19"] = {
 }
 
 P["C14"] = {
-    "common": {"validate": 40, "runs": [{"pattern": "verifHarness_C14_", "label_filter": "C14:"}]},
-    "thorough": {"validate": 200},
+    "common": {"validate": 40, "max_paths": 250000, "runs": [{"pattern": "verifHarness_C14_", "label_filter": "C14:"}]},
+    "thorough": {"validate": 200, "max_paths": 2000000},
     "bounds": "NARROW CLAIM: only the repository's hand-written JSON layer (Schema.MarshalJSONTo, Schema.UnmarshalJSONFrom) is decided, executed for real against a token-level contract model of go-json-experiment/json (jsontext.Encoder = token recorder, jsontext.Decoder = token cursor, json.MarshalEncode / UnmarshalDecode walk Go values by the struct tags of the CURRENT source with v2 omitempty, unknown members ignored, duplicate names rejected, and call back into the real methods). Schema family: every type name (plain primitive; long/int with logicalType; fixed with name, namespace and an arbitrary symbolic size; enum with and without symbols; record with 0..2 fields in either order; array; map; unions [X], [null,X], [X,null], [null,X,string]), nested to depth 2 (thorough 3), each composite with one freely chosen child. For every schema: MarshalJSONTo succeeds, its token stream is one well-formed JSON value (balanced, name/value pairs, distinct names), and UnmarshalJSONFrom of that stream - as emitted, with the members of every object in reverse order, and with unknown attributes (doc, aliases, default) inserted into every object - yields an identical schema and consumes the whole stream. The model is validated on every run: the sampled schemas are pushed through the real library natively (json.Marshal, text re-ordered / extended with jsontext, SchemaFromString) and must give the same outcomes.",
     "outside": "everything decided inside the library: whitespace and text layout, escaping, rejection of malformed JSON text, number syntax; key-order and unknown-attribute independence hold by the model's (validated) contract of the library plus the real hoisting code in UnmarshalJSONFrom; schemas deeper than the bound or with several free children per composite",
     "assumptions": A_CORE[:2] + ["token-level contract model of github.com/go-json-experiment/json (engine/jsonmodel.go), validated natively against the real library on every run"],
